@@ -681,7 +681,7 @@ Proof.
     - rewrite map_app. cbn [map fst]. apply sorted_app_one; [exact H4|].
       apply Forall_forall. intros y Hy. apply in_map_iff in Hy as (c & Hc & Hin).
       rewrite Forall_forall in H3. destruct (H3 c Hin) as [_ Hb]. lia. }
-  unfold r_on_data.
+  unfold r_on_data. destruct (sn =? i64_max); [constructor; assumption|].
   destruct (r_rel r).
   - destruct (Z.eqb_spec sn (available_changes_max r + 1)) as [E|E]; [|constructor; assumption].
     destruct (Hnew ltac:(lia)) as [Ha Hb]. destruct (Hbuf sn) as [Hc Hd].
@@ -704,8 +704,15 @@ Proof.
   unfold gfrag in H. rewrite <- Hfr in H. exact H.
 Qed.
 
+Lemma genuine_nsub : forall f ch fr, frag_size_ok f -> history_ok ch -> genuine f ch fr -> fr_nsub fr = 1.
+Proof.
+  intros f ch fr Hf Hch (rid & p & i & Hl & Hi & Hfr).
+  pose proof (gfrag_fields f rid (fr_sn fr) p Hf (Hch _ _ Hl) i Hi) as (_ & _ & _ & H & _).
+  unfold gfrag in H. rewrite <- Hfr in H. exact H.
+Qed.
+
 Lemma r_on_frag_cases : forall f ch r fr q, frag_size_ok f -> history_ok ch ->
-  rinv f ch r -> genuine f ch fr -> lookup (fr_sn fr) ch = Some q ->
+  rinv f ch r -> genuine f ch fr -> lookup (fr_sn fr) ch = Some q -> fr_sn fr <> i64_max ->
   let buf1 := frag_buf1 r fr in
     (forall x, In x buf1 -> In x (r_buf r) \/ x = fr) /\
     (forall x, In x (r_buf r) -> In x buf1) /\
@@ -719,9 +726,11 @@ Lemma r_on_frag_cases : forall f ch r fr q, frag_size_ok f -> history_ok ch ->
      \/ (~ complete f buf1 (fr_sn fr) q /\
          r_on_frag r fr = Ok (r_set r (r_first r) (r_highest r) buf1 (r_changes r)))).
 Proof.
-  intros f ch r fr q Hf Hch [H1 H2 H3 H4] Hg Hl buf1.
-  unfold r_on_frag. rewrite (genuine_fsize f ch fr Hf Hch Hg).
+  intros f ch r fr q Hf Hch [H1 H2 H3 H4] Hg Hl Hmax buf1.
+  unfold r_on_frag. rewrite (genuine_fsize f ch fr Hf Hch Hg), (genuine_nsub f ch fr Hf Hch Hg).
   destruct (Z.eqb_spec f 0) as [E0|E0]; [destruct Hf; lia|].
+  destruct (Z.eqb_spec (fr_sn fr) i64_max) as [E1|E1]; [contradiction|]. cbn [orb].
+  replace (blen (fr_data fr) + 1 <? 1) with false by (symmetry; apply Z.ltb_ge; pose proof (blen_nonneg (fr_data fr)); lia).
   fold (frag_accept r fr). fold (frag_buf1 r fr). fold buf1.
   assert (Hsub : forall x, In x buf1 -> In x (r_buf r) \/ x = fr).
   { unfold buf1, frag_buf1. destruct (frag_accept r fr); [|tauto]. intros x Hx. apply push_frag_in in Hx. exact Hx. }
@@ -748,7 +757,9 @@ Lemma r_on_frag_inv : forall f ch r fr, frag_size_ok f -> history_ok ch ->
   exists r', r_on_frag r fr = Ok r' /\ rinv f ch r'.
 Proof.
   intros f ch r fr Hf Hch Hr Hg. pose proof Hg as (rid & q & i & Hl & _).
-  pose proof (r_on_frag_cases f ch r fr q Hf Hch Hr Hg Hl) as (_ & _ & _ & Hnd & Hgen & Hcase).
+  destruct (Z.eq_dec (fr_sn fr) i64_max) as [Emax|Emax].
+  { exists r. split; [|exact Hr]. unfold r_on_frag. rewrite Emax, Z.eqb_refl, orb_true_r. reflexivity. }
+  pose proof (r_on_frag_cases f ch r fr q Hf Hch Hr Hg Hl Emax) as (_ & _ & _ & Hnd & Hgen & Hcase).
   destruct Hr as [H1 H2 H3 H4].
   destruct Hcase as [[_ E]|[_ E]]; rewrite E; eexists; (split; [reflexivity|]).
   - apply r_on_data_inv; [|exact Hl]. constructor; cbn [r_set r_buf r_changes r_highest]; try assumption.
@@ -857,6 +868,7 @@ Lemma r_on_heartbeat_spec : forall r first last count final r' x,
   r_buf r' = r_buf r /\ r_changes r' = r_changes r /\ r_highest r' = r_highest r /\ r_rel r' = r_rel r.
 Proof.
   intros r first last count final r' x H. unfold r_on_heartbeat in H.
+  destruct (first <=? 0); [inversion H; subst; repeat split|].
   destruct (r_hbcount r <? count).
   2:{ inversion H; subst. repeat split. }
   unfold r_write_message in H. cbn [r_must] in H.
@@ -1078,7 +1090,7 @@ Proof. unfold same_ctrl. intros a b c H1 H2. intuition congruence. Qed.
 
 Lemma r_on_data_ctrl : forall r sn p, same_ctrl r (r_on_data r sn p).
 Proof.
-  intros r sn p. unfold r_on_data, same_ctrl.
+  intros r sn p. unfold r_on_data, same_ctrl. destruct (sn =? i64_max); [auto 10|].
   destruct (r_rel r) eqn:E.
   - destruct (sn =? _); cbn [r_set received_change_set r_nfcount r_rel r_last r_must r_hbcount r_ackcount]; auto 10.
   - destruct (_ <=? sn); cbn [r_set received_change_set r_nfcount r_rel r_last r_must r_hbcount r_ackcount]; auto 10.
@@ -1087,7 +1099,8 @@ Qed.
 Lemma r_on_frag_ctrl : forall r fr r', r_on_frag r fr = Ok r' -> same_ctrl r r'.
 Proof.
   intros r fr r' H. unfold r_on_frag in H.
-  destruct (fr_fsize fr =? 0); [inversion H; apply same_ctrl_refl|].
+  destruct ((fr_fsize fr =? 0) || _); [inversion H; apply same_ctrl_refl|].
+  destruct (_ <? fr_nsub fr); [inversion H; apply same_ctrl_refl|].
   destruct (reconstruct _ (fr_sn fr)) as [[[d|] b]|e|e]; cbn [bind fst snd] in H; try discriminate; inversion H; subst.
   - eapply same_ctrl_trans; [|apply r_on_data_ctrl]. repeat split.
   - repeat split.
@@ -1111,7 +1124,7 @@ Qed.
 
 Lemma r_on_data_changes : forall r s q, incl (r_changes r) (r_changes (r_on_data r s q)).
 Proof.
-  intros r s q c Hc. unfold r_on_data.
+  intros r s q c Hc. unfold r_on_data. destruct (s =? i64_max); [exact Hc|].
   destruct (r_rel r); [destruct (s =? _)|destruct (_ <=? s)];
     cbn [r_set received_change_set r_changes]; try exact Hc; apply in_app_iff; left; exact Hc.
 Qed.
@@ -1120,7 +1133,8 @@ Lemma r_deliver_mono : forall r w r', r_deliver r w = Ok r' -> incl (r_changes r
 Proof.
   intros r w r' E. destruct w as [rid s q|fr|s]; cbn [r_deliver] in E.
   - inversion E; subst. apply r_on_data_changes.
-  - unfold r_on_frag in E. destruct (fr_fsize fr =? 0); [inversion E; apply incl_refl|].
+  - unfold r_on_frag in E. destruct ((fr_fsize fr =? 0) || _); [inversion E; apply incl_refl|].
+    destruct (_ <? fr_nsub fr); [inversion E; apply incl_refl|].
     destruct (reconstruct _ _) as [[[d|] b]|e|e]; cbn [bind fst snd] in E; try discriminate;
       inversion E; subst.
     + intros c Hc. apply r_on_data_changes. cbn [r_set r_changes]. exact Hc.
@@ -1137,15 +1151,16 @@ Proof.
 Qed.
 
 Lemma r_on_data_rel_expected : forall r sn p, r_rel r = true -> sn = available_changes_max r + 1 ->
-  r_changes (r_on_data r sn p) = r_changes r ++ [(sn, p)].
+  sn <> i64_max -> r_changes (r_on_data r sn p) = r_changes r ++ [(sn, p)].
 Proof.
-  intros r sn p Hrel Hs. unfold r_on_data. rewrite Hrel. rewrite <- Hs, Z.eqb_refl. reflexivity.
+  intros r sn p Hrel Hs Hmax. unfold r_on_data. destruct (Z.eqb_spec sn i64_max); [contradiction|].
+  rewrite Hrel. rewrite <- Hs, Z.eqb_refl. reflexivity.
 Qed.
 
 Lemma r_on_data_rel_other : forall r sn p, r_rel r = true -> sn <> available_changes_max r + 1 ->
   r_on_data r sn p = r.
 Proof.
-  intros r sn p Hrel Hs. unfold r_on_data. rewrite Hrel.
+  intros r sn p Hrel Hs. unfold r_on_data. destruct (sn =? i64_max); [reflexivity|]. rewrite Hrel.
   destruct (Z.eqb_spec sn (available_changes_max r + 1)); [contradiction|reflexivity].
 Qed.
 
@@ -1163,6 +1178,7 @@ Section Waiting.
   Hypothesis Hf : frag_size_ok f.
   Hypothesis Hch : history_ok ch.
   Hypothesis Hlk : lookup sn ch = Some p.
+  Hypothesis Hsnmax : sn < i64_max.
   Let n := div_ceil (blen p) f.
 
   Variable I : Z -> Prop.     (* the fragment numbers (1-based) we keep track of *)
@@ -1193,7 +1209,11 @@ Section Waiting.
     destruct Hst as [Hdel|(Hexp & Hinc & Hcov & Honly)]; [left; apply Hmono; exact Hdel|].
     destruct w as [rid s q|fr|s]; cbn [r_deliver wire_genuine] in *.
     - (* DATA *)
-      inversion E; subst r'. unfold r_on_data. rewrite Hrel.
+      inversion E; subst r'. unfold r_on_data.
+      destruct (Z.eqb_spec s i64_max) as [Em|Em].
+      { right. split; [exact Hexp|]. split; [exact Hinc|]. split; [|exact Honly].
+        intros k Hk HI. destruct (Hcov k Hk HI) as [H|(rid' & [H|H])]; [left; exact H|discriminate|right; eauto]. }
+      rewrite Hrel.
       destruct (Z.eqb_spec s (available_changes_max r + 1)) as [Es|Es].
       + left. assert (Hs : s = sn) by lia. assert (q = p) by (rewrite Hs in Hg; congruence).
         cbn [r_set received_change_set r_changes]. apply in_app_iff. right. left. f_equal; assumption.
@@ -1201,7 +1221,14 @@ Section Waiting.
         intros k Hk HI. destruct (Hcov k Hk HI) as [H|(rid' & [H|H])]; [left; exact H|discriminate|right; eauto].
     - (* DATA_FRAG *)
       pose proof Hg as (rid0 & q & i0 & Hl & Hi0 & Hfr).
-      pose proof (r_on_frag_cases f ch r fr q Hf Hch Hr Hg Hl) as (Hsub & Hsup & Hkey & Hnd & Hgen & Hcase).
+      destruct (Z.eq_dec (fr_sn fr) i64_max) as [Emax|Emax].
+      { (* ignored *)
+        assert (r' = r).
+        { unfold r_on_frag in E. rewrite Emax, Z.eqb_refl, orb_true_r in E. congruence. }
+        subst r'. right. split; [exact Hexp|]. split; [exact Hinc|]. split; [|exact Honly].
+        intros k Hk HI. destruct (Hcov k Hk HI) as [H|(rid' & [H|H])]; [left; exact H| |right; eauto].
+        exfalso. assert (fr_sn fr = sn) by (replace fr with (mk_data_frag rid' sn p f (k - 1)) by congruence; apply mk_data_frag_sn). lia. }
+      pose proof (r_on_frag_cases f ch r fr q Hf Hch Hr Hg Hl Emax) as (Hsub & Hsup & Hkey & Hnd & Hgen & Hcase).
       assert (Hacc : frag_accept r fr = (fr_sn fr =? sn)).
       { unfold frag_accept. rewrite Hrel, Hexp. reflexivity. }
       set (buf1 := frag_buf1 r fr) in *.
@@ -1209,7 +1236,7 @@ Section Waiting.
       + (* a fragment of the awaited sample: buffered *)
         rewrite Es in *. assert (q = p) by congruence. subst q.
         destruct Hcase as [[Hc Ec]|[Hc Ec]]; rewrite Ec in E; inversion E; subst r'.
-        * left. rewrite r_on_data_rel_expected; [|exact Hrel|symmetry; exact Hexp].
+        * left. rewrite r_on_data_rel_expected; [|exact Hrel|symmetry; exact Hexp|lia].
           apply in_app_iff. right. left. reflexivity.
         * right. cbn [r_set r_buf r_first r_highest available_changes_max].
           split; [exact Hexp|]. split; [exact Hc|]. split.
@@ -1274,18 +1301,18 @@ End Waiting.
    once every fragment has arrived — in ANY order, with ANY duplication, addressed to whichever reader,
    interleaved with ANY other genuine traffic of the writer — the reader holds (sn, p) *)
 Theorem complete_set_is_delivered : forall f ch sn p r ws,
-  frag_size_ok f -> history_ok ch -> lookup sn ch = Some p ->
+  frag_size_ok f -> history_ok ch -> lookup sn ch = Some p -> sn < i64_max ->
   rinv f ch r -> r_rel r = true -> available_changes_max r + 1 = sn ->
   ~ complete f (r_buf r) sn p ->
   Forall (wire_genuine f ch) ws ->
   (forall i, 0 <= i < div_ceil (blen p) f -> exists rid, In (WFrag (mk_data_frag rid sn p f i)) ws) ->
   exists r', r_deliver_all r ws = Ok r' /\ In (sn, p) (r_changes r').
 Proof.
-  intros f ch sn p r ws Hf Hch Hlk Hr Hrel Hexp Hinc Hg Hall.
+  intros f ch sn p r ws Hf Hch Hlk Hmax Hr Hrel Hexp Hinc Hg Hall.
   assert (Hw : waiting f ch sn p (fun _ => True) false r ws).
   { split; [exact Hr|]. split; [exact Hrel|]. right. split; [exact Hexp|]. split; [exact Hinc|].
     split; [|discriminate]. intros k Hk _. right. apply Hall. lia. }
-  destruct (deliver_all_waiting f ch sn p Hf Hch Hlk _ _ ws r Hw Hg) as (r' & E & Hw').
+  destruct (deliver_all_waiting f ch sn p Hf Hch Hlk Hmax _ _ ws r Hw Hg) as (r' & E & Hw').
   exists r'. split; [exact E|].
   destruct (waiting_end f ch sn p _ _ r' Hw') as [Hdel|(_ & Hinc' & Hcov & _)]; [exact Hdel|].
   exfalso. apply Hinc'. intros i Hi. apply Hcov; [lia|exact I].
@@ -1373,6 +1400,7 @@ Lemma r_on_heartbeat_counts : forall r first last count final r' x,
      a_count a = r_ackcount r' /\ (forall nf, nfo = Some nf -> n_count nf = r_nfcount r')).
 Proof.
   intros r first last count final r' x H. unfold r_on_heartbeat in H.
+  destruct (first <=? 0); [inversion H; subst; left; auto|].
   destruct (r_hbcount r <? count).
   2:{ inversion H; subst. left. auto. }
   unfold r_write_message in H. cbn [r_must] in H.
@@ -1532,6 +1560,7 @@ Lemma r_on_heartbeat_total : forall f ch r first last count final, frag_size_ok 
   rinv f ch r -> exists r' x, r_on_heartbeat r first last count final = Ok (r', x).
 Proof.
   intros f ch r first last count final Hf Hch Hr. unfold r_on_heartbeat.
+  destruct (first <=? 0); [eexists; eexists; reflexivity|].
   destruct (r_hbcount r <? count); [|eexists; eexists; reflexivity].
   unfold r_write_message. cbn [r_must]. destruct (negb final || _); [|eexists; eexists; reflexivity].
   match goal with |- context [gen_nackfrag ?R] =>
@@ -1736,7 +1765,7 @@ Definition hb_state (r : rstate) (first last c : Z) : rstate :=
   mkR (r_rel r) first last (r_highest r) (r_buf r) false c
       (wrap_i32 (r_ackcount r + 1)) (wrap_i32 (r_nfcount r + 1)) (r_changes r).
 
-Lemma hb_eval : forall r first last c final,
+Lemma hb_eval : forall r first last c final, 0 < first ->
   r_hbcount r < c -> Z.max first (r_highest r + 1) <= Z.max last (r_highest r) ->
   r_on_heartbeat r first last c final =
     (nf <- gen_nackfrag (hb_state r first last c) ;;
@@ -1746,7 +1775,8 @@ Lemma hb_eval : forall r first last c final,
                                  (missing256 (hb_state r first last c)))
                      (wrap_i32 (r_ackcount r + 1)), nf))).
 Proof.
-  intros r first last c final Hc Hm. unfold r_on_heartbeat.
+  intros r first last c final Hfi Hc Hm. unfold r_on_heartbeat.
+  replace (first <=? 0) with false by (symmetry; apply Z.leb_gt; exact Hfi).
   replace (r_hbcount r <? c) with true by (symmetry; apply Z.ltb_lt; exact Hc).
   unfold any_missing. cbn [r_first r_last r_highest].
   replace (Z.max first (r_highest r + 1) <=? Z.max last (r_highest r)) with true by (symmetry; apply Z.leb_le; exact Hm).
@@ -1840,7 +1870,7 @@ Qed.
 
 Lemma r_on_data_first : forall r sn p, r_rel r = true -> r_first (r_on_data r sn p) = r_first r.
 Proof.
-  intros r sn p Hrel. unfold r_on_data. rewrite Hrel.
+  intros r sn p Hrel. unfold r_on_data. destruct (sn =? i64_max); [reflexivity|]. rewrite Hrel.
   destruct (sn =? _); cbn [r_set received_change_set r_first]; reflexivity.
 Qed.
 
@@ -1848,7 +1878,8 @@ Lemma r_deliver_first : forall r w r', r_rel r = true -> r_deliver r w = Ok r' -
 Proof.
   intros r w r' Hrel E. destruct w as [rid s q|fr|s]; cbn [r_deliver] in E.
   - inversion E; subst. apply r_on_data_first. exact Hrel.
-  - unfold r_on_frag in E. destruct (fr_fsize fr =? 0); [inversion E; reflexivity|].
+  - unfold r_on_frag in E. destruct ((fr_fsize fr =? 0) || _); [inversion E; reflexivity|].
+    destruct (_ <? fr_nsub fr); [inversion E; reflexivity|].
     destruct (reconstruct _ _) as [[[d|] b]|e|e]; cbn [bind fst snd] in E; try discriminate; inversion E; subst.
     + rewrite r_on_data_first; [reflexivity|exact Hrel].
     + reflexivity.
@@ -1866,6 +1897,7 @@ Qed.
 
 Section Repair.
   Variables (sn : Z) (p : bytes) (first last : Z).
+  Hypothesis Hfirst : 0 < first.   (* a HEARTBEAT with firstSN <= 0 is ignored *)
 
   Local Notation rep := (rep sn p last).
   Local Notation pending := (pending sn p first).
@@ -1897,7 +1929,7 @@ Section Repair.
     assert (Hwn : wrap_i32 (r_nfcount r + 1) = r_nfcount r + 1)
       by (apply wrap_i32_small; unfold i32_min, i32_max in *; fold r in C1, C3; lia).
     cbn [step]. fold r.
-    rewrite (hb_eval r first last c final Hc) by (fold r in Hmax; lia).
+    rewrite (hb_eval r first last c final Hfirst Hc) by (fold r in Hmax; lia).
     set (r3 := hb_state r first last c).
     assert (Hm256 : exists t, missing256 r3 = sn :: t).
     { unfold missing256, r3. cbn [hb_state r_first r_last r_highest]. fold r in Hmax. rewrite Hmax.
@@ -1956,7 +1988,7 @@ Section Repair.
   (* delivering genuine submessages to a reader that waits for sn: either the sample gets delivered, or
      the reader still waits and every tracked fragment number J that was buffered or carried is buffered *)
   Lemma deliver_pending : forall f ch r ws (J : Z -> Prop),
-    frag_size_ok f -> history_ok ch -> lookup sn ch = Some p ->
+    frag_size_ok f -> history_ok ch -> lookup sn ch = Some p -> sn < i64_max ->
     rinv f ch r -> r_rel r = true -> available_changes_max r + 1 = sn ->
     ~ complete f (r_buf r) sn p -> only_sn sn (r_buf r) ->
     Forall (wire_genuine f ch) ws ->
@@ -1967,21 +1999,22 @@ Section Repair.
        (available_changes_max r' + 1 = sn /\ ~ complete f (r_buf r') sn p /\ only_sn sn (r_buf r') /\
         forall k, 1 <= k <= div_ceil (blen p) f -> J k -> present (r_buf r') sn k)).
   Proof.
-    intros f ch r ws J Hf Hch Hl Hr Hrel Hexp Hinc Honly Hg Hcov.
+    intros f ch r ws J Hf Hch Hl Hsm Hr Hrel Hexp Hinc Honly Hg Hcov.
     assert (Hw : waiting f ch sn p J true r ws).
     { split; [exact Hr|]. split; [exact Hrel|]. right. split; [exact Hexp|]. split; [exact Hinc|].
       split; [exact Hcov|]. intros _. exact Honly. }
-    destruct (deliver_all_waiting f ch sn p Hf Hch Hl J true ws r Hw Hg) as (r' & E & Hw').
+    destruct (deliver_all_waiting f ch sn p Hf Hch Hl Hsm J true ws r Hw Hg) as (r' & E & Hw').
     exists r'. split; [exact E|]. split; [apply Hw'|]. split; [apply (r_deliver_all_ctrl ws r r' E)|].
     split; [apply (r_deliver_all_first ws r r' Hrel E)|].
     destruct (waiting_end f ch sn p J true r' Hw') as [Hd|(A & B & C & D)]; [left; exact Hd|right].
     split; [exact A|]. split; [exact B|]. split; [apply D; reflexivity|exact C].
   Qed.
 
-  Lemma r_on_heartbeat_hb : forall r fi la c final r' x, r_hbcount r < c ->
+  Lemma r_on_heartbeat_hb : forall r fi la c final r' x, r_hbcount r < c -> 0 < fi ->
     r_on_heartbeat r fi la c final = Ok (r', x) -> r_hbcount r' = c /\ r_first r' = fi.
   Proof.
-    intros r fi la c final r' x Hc H. unfold r_on_heartbeat in H.
+    intros r fi la c final r' x Hc Hfi H. unfold r_on_heartbeat in H.
+    replace (fi <=? 0) with false in H by (symmetry; apply Z.leb_gt; exact Hfi).
     replace (r_hbcount r <? c) with true in H by (symmetry; apply Z.ltb_lt; exact Hc).
     unfold r_write_message in H. cbn [r_must] in H.
     destruct (negb final || _); [|inversion H; subst; auto].
@@ -2023,7 +2056,7 @@ Section Repair.
     assert (Hhb' : r_hbcount (s_r s') = c).
     { cbn [step] in E1. destruct (r_on_heartbeat (s_r s) first last c final) as [[r1 x1]|?|?] eqn:Eh; try discriminate.
       cbn [bind fst snd] in E1. injection E1 as E1 _. subst s1.
-      destruct (r_on_heartbeat_hb _ _ _ _ _ _ _ Hhb Eh) as [Hh1 _].
+      destruct (r_on_heartbeat_hb _ _ _ _ _ _ _ Hhb Hfirst Eh) as [Hh1 _].
       cbn [step] in E2, E3.
       assert (H2 : r_hbcount (s_r s2) = c).
       { cbn [s_reply s_w s_r] in E2. destruct (match x1 with Some y => Some y | None => s_reply s end) as [[a nfo]|];
@@ -2063,7 +2096,7 @@ Section Repair.
         fold f in Ea. destruct (Z.eqb_spec f 0); [destruct Hf; lia|].
         replace (1 <? div_ceil (blen p) f) with true in Ea by (symmetry; apply Z.ltb_lt; exact Hn).
         destruct (ack_resp (s_w s) t) as [y'|?|?]; try discriminate. cbn [bind] in Ea. injection Ea as <-. left. reflexivity. }
-      destruct (deliver_pending f ch r3 y (fun k => k = 1) Hf Hh Hlk Hr3 Hrrel Hexp3 Hinc Honly Hgen2)
+      destruct (deliver_pending f ch r3 y (fun k => k = 1) Hf Hh Hlk ltac:(lia) Hr3 Hrrel Hexp3 Hinc Honly Hgen2)
         as (r4 & Ed & Hr4 & Hctrl4 & Hfi4 & Hres4).
       { intros k Hk ->. right. exists 1. exact Hhead. }
       rewrite Ed in Hd2. injection Hd2 as Hd2.
@@ -2095,7 +2128,7 @@ Section Repair.
       rewrite Ews in Ex3. injection Ex3 as Ew3 Ews3. subst ws3.
       pose proof (w_on_nack_frag_spec _ _ _ _ _ _ _ Ews) as (_ & _ & _ & _ & Hgen3). rewrite Hf2, Hch2 in Hgen3.
       rewrite <- Hd2 in Hd3.
-      destruct (deliver_pending f ch r3 ws (fun k => k < L + 256) Hf Hh Hlk Hr3 Hrrel Hexp3 Hinc Honly Hgen3)
+      destruct (deliver_pending f ch r3 ws (fun k => k < L + 256) Hf Hh Hlk ltac:(lia) Hr3 Hrrel Hexp3 Hinc Honly Hgen3)
         as (r5 & Ed & Hr5 & Hctrl5 & Hfi5 & Hres5).
       { intros k Hk Hlt. destruct (present_decb (r_buf r) sn k) as [Hp|Hp]; [left; exact Hp|].
         right. exists 1. rewrite <- Hf2. apply Hall; [right; apply Hwin; assumption|rewrite Hf2; exact Hk]. }
